@@ -270,7 +270,8 @@ var verifPrecs = []int64{-1, 0, 2}
 // floatToFormattedString: output conforms to the declared pattern for the decimal verbs (symbolic value).
 func VerifH_C18_floatToFormattedString_pattern() {
 	fn := getFloatToFormattedStringFunction()
-	h := verifHandler(fn).(func(float64, string, int64) string)
+	hh := verifFormatted(fn)
+	h := func(f float64, v string, p int64) string { r, _ := hh(f, v, p); return r }
 	pat := verifOutputPattern(fn)
 	verb := verifVerbs[verifrt.Choice("verb", len(verifVerbs))]
 	verifrt.Assert(verifrt.MatchGoRegex(verb, verifParamPattern(fn, 1)), "verb admitted by parameter pattern")
@@ -289,10 +290,37 @@ func VerifH_C18_floatToFormattedString_pattern() {
 	}
 }
 
+// verifFormatted calls the floatToFormattedString handler whether or not it returns an error as well.
+func verifFormatted(fn schema.CallableFunction) func(float64, string, int64) (string, error) {
+	switch h := verifHandler(fn).(type) {
+	case func(float64, string, int64) string:
+		return func(f float64, v string, p int64) (string, error) { return h(f, v, p), nil }
+	case func(float64, string, int64) (string, error):
+		return h
+	}
+	verifrt.Assert(false, "harness: floatToFormattedString has one of the two known handler signatures")
+	return nil
+}
+
+// floatToFormattedString is total: the pattern of its format parameter is not enforced when the function
+// is called with a value computed at run time, so every string is a possible argument; a format that is
+// not one of the verbs yields an error or some text, never a fault (concrete probes).
+func VerifH_C18_floatToFormattedString_total() {
+	h := verifFormatted(getFloatToFormattedStringFunction())
+	format := []string{"", "f", "ff", "q", "%", " "}[verifrt.Choice("format", 6)]
+	out, err := h(1.5, format, []int64{-1, 0, 2}[verifrt.Choice("precision", 3)])
+	verifrt.Reach("returned")
+	verifrt.Assert(err != nil || out != "", "floatToFormattedString returns an error or a text for every format string")
+	if format == "f" {
+		verifrt.Assert(err == nil, "a format that is one of the verbs is accepted")
+	}
+}
+
 // floatToFormattedString with the hexadecimal verbs on concrete probes (digits are not modelled symbolically).
 func VerifH_C18_floatToFormattedString_hex() {
 	fn := getFloatToFormattedStringFunction()
-	h := verifHandler(fn).(func(float64, string, int64) string)
+	hh := verifFormatted(fn)
+	h := func(f float64, v string, p int64) string { r, _ := hh(f, v, p); return r }
 	pat := verifOutputPattern(fn)
 	vals := []float64{1, 1.5, 1.625, 0.1, -2.75, 1e300, 5e-324, 4503599627370496}
 	v := vals[verifrt.Choice("value", len(vals))]
